@@ -4,10 +4,15 @@ from .. import gen, oracles, solved, sysdesc, tablecheck
 
 CLAIM = True
 MODULE = "SysLoss.Props.C09"
+MODULES = ["SysLoss.Props.C09", "SysLoss.Props.C09Table"]
 THEOREMS = ["SysLoss.C09." + t for t in (
-    "outOfRange_iff", "getWarns_mem", "lookup_eq_some_iff_mem", "checks_mem", "warn_iff", "inactive_no_warn", "warn_applicable", "applicable_table", "default_limits", "boundary_no_warn", "boundary_no_warn_tp")]
+    "outOfRange_iff", "getWarns_mem", "lookup_eq_some_iff_mem", "checks_mem", "warn_iff", "inactive_no_warn", "warn_applicable", "applicable_table", "default_limits", "boundary_no_warn", "boundary_no_warn_tp",
+    # Props/C09Table: the assembled row and its own cells; Subsystem / System total roll-up
+    "tokens_joinWarn", "limitKey_clean", "tokens_solvGetWarns", "compRow_cells", "row_cells_some", "row_warn_iff", "row_warn_iff_cells",
+    "row_warn_default", "row_no_warn_inside", "row_warn_empty_iff", "row_warn_ne_iff", "row_silent_no_warn", "compRow_warn_indep",
+    "comps_rows", "comps_rows_of_topo", "subsystem_warn_iff", "total_warn_iff", "total_warn_iff_nodes")]
 LEVEL_TEXT = ("Theorems (Lean 4, any ordered field): a token is in the Warnings cell iff it is applicable to the kind and the documented quantity (vi, vo, vd=|vi|-|vo|, ii, io, pi, po=pi-pl, pl, tr, tp) lies outside the configured or default [min,max] - by magnitude, tp by signed value; the applicability table; silence for components whose phase configuration omits the phase (sources and series losses are always evaluated); strict comparisons at the boundary. Tied to the code on every run with limits planted at 0.5x / exactly at / 1.5x the cell values of a first solve: Warnings cells (token sets) against the model's certificate evaluated in IEEE doubles, and an oracle that recomputes the tokens and the Subsystem / System total roll-up from the row cells.")
-LEVEL_NOTE = ('The roll-up clause (Subsystem Yes iff an attributed component warns) is proved in Props/C07 (subs_spec).')
+LEVEL_NOTE = ('Props/C09Table states the property on the assembled table: a token is in a row\'s Warnings cell iff the key applies to the kind, the component is not silenced in the phase and the quantity computed from THE ROW\'S OWN CELLS is out of range (`row_warn_iff`), absent keys are judged against the defaults (`row_warn_default`), and Subsystem / System total say Yes iff one of their rows warns (`subsystem_warn_iff`, `total_warn_iff_nodes`).')
 RULE = ("two-pass generation: a random tree (both polarities, thermal resistances, phases on 40%) is first solved without limits, "
         "then limits are planted on random subsets of the 10 keys with [min,max] placed at 0.5x, exactly at, and 1.5x the value the "
         "unlimited system shows for that cell (about a third fire, a third sit on the boundary); non-trivial = at least one planted limit")
